@@ -51,9 +51,11 @@ static _Bool verif_thrown = 0;
 /* ---- literals, casts ------------------------------------------------------------------------ */
 #ifdef VERIF_REAL
 #define RQ(num, den, spelling) (((real_t)(num)) / ((real_t)(den)))
+#define RQ_BIG(num, den, spelling) ((num) / (den))
 #define REAL_CAST(ct, x) (x)
 #else
 #define RQ(num, den, spelling) (spelling)
+#define RQ_BIG(num, den, spelling) (spelling)
 #define REAL_CAST(ct, x) ((ct)(x))
 #endif
 #if defined(VERIF_MODE_SAI)
